@@ -43,6 +43,7 @@ type c20Case struct {
 	IDs      []int    `json:"workloads,omitempty"` // indices into the workloads created by the setup (w0@a, w1@b, w2@c)
 	Node     string   `json:"node,omitempty"`
 	Backend  string   `json:"backend"`
+	Reversed bool     `json:"store_lists_nodes_in_reverse_order,omitempty"`
 }
 
 type lockEvent struct {
@@ -73,7 +74,20 @@ func (r *lockRec) add(kind, key string) {
 
 type recStore struct {
 	store.Store
-	rec *lockRec
+	rec     *lockRec
+	reverse bool
+}
+
+// GetNodesByPod: the Store interface promises no order for listed nodes (etcd lists by key, a real
+// redis in no particular order). The harness decides the order: as the backend returned it, or reversed.
+func (s recStore) GetNodesByPod(ctx context.Context, nf *coretypes.NodeFilter, opts ...store.Option) ([]*coretypes.Node, error) {
+	ns, err := s.Store.GetNodesByPod(ctx, nf, opts...)
+	if s.reverse {
+		for i, j := 0, len(ns)-1; i < j; i, j = i+1, j-1 {
+			ns[i], ns[j] = ns[j], ns[i]
+		}
+	}
+	return ns, err
 }
 
 func (s recStore) CreateLock(key string, ttl time.Duration) (lock.DistributedLock, error) {
@@ -220,6 +234,11 @@ func c20Cases(thorough bool, backend string) []c20Case {
 		cs = append(cs, c20Case{Op: op, Pod: "p1", Backend: backend}, c20Case{Op: op, Pod: "p1", Excludes: []string{"a"}, Backend: backend}, c20Case{Op: op, Pod: "p2", Backend: backend})
 	}
 	cs = append(cs, c20Case{Op: "capacity", Pod: "", Backend: backend}) // all pods
+	// the same listings with the store returning the nodes in the opposite order
+	for _, op := range []string{"create", "capacity"} {
+		cs = append(cs, c20Case{Op: op, Pod: "p1", Backend: backend, Reversed: true})
+	}
+	cs = append(cs, c20Case{Op: "capacity", Pod: "", Backend: backend, Reversed: true}, c20Case{Op: "create", Includes: []string{"b", "a"}, Pod: "p1", Backend: backend, Reversed: true})
 	idx := [][]int{}
 	for _, s := range seqs([]string{"0", "1", "2"}, maxLen) {
 		var is []int
@@ -251,7 +270,7 @@ func c20Explore(t *testing.T, c *vcore.Ctx) {
 	if dir == "" {
 		dir = t.TempDir()
 	}
-	c.SetRule("operations {create, capacity, remove, dissociate, control, send, replace, realloc, set-node, remove-node, remove-pod, node-resource, pod-resource, and the background remap they trigger} over pods p1{a,c}, p2{b} with one workload per node; include lists = every sequence over {a,b,c} up to length 2 (thorough 3) incl. repeats and nodes of another pod, exclude list, whole pod, all pods; workload id lists = every sequence over the 3 workloads up to the same length; both store backends; non-trivial = cases in which some goroutine requested a lock while holding another")
+	c.SetRule("operations {create, capacity, remove, dissociate, control, send, replace, realloc, set-node, remove-node, remove-pod, node-resource, pod-resource, and the background remap they trigger} over pods p1{a,c}, p2{b} with one workload per node; include lists = every sequence over {a,b,c} up to length 2 (thorough 3) incl. repeats and nodes of another pod, exclude list, whole pod, all pods (listings also with the store returning the nodes in reverse order: the Store interface promises none); workload id lists = every sequence over the 3 workloads up to the same length; both store backends; non-trivial = cases in which some goroutine requested a lock while holding another")
 	c.Assume("the locked callback runs on the goroutine that acquired the lock (true for withNodesLocked / withWorkloadsLocked), so per-goroutine tracking is exact")
 	backends := []string{"etcd", "redis"}
 	for _, be := range backends {
@@ -338,7 +357,7 @@ func c20Setup(t *testing.T, b *world.Backend, redis bool) (*world.Snap, []string
 func c20One(t *testing.T, c *vcore.Ctx, b *world.Backend, snap *world.Snap, wids []string, cc *c20Case) {
 	b.Restore(snap)
 	rec := &lockRec{}
-	opts := world.InstanceOpts{Redis: cc.Backend == "redis", NoWAL: true, WrapStore: func(s store.Store) store.Store { return recStore{Store: s, rec: rec} }}
+	opts := world.InstanceOpts{Redis: cc.Backend == "redis", NoWAL: true, WrapStore: func(s store.Store) store.Store { return recStore{Store: s, rec: rec, reverse: cc.Reversed} }}
 	var ids []string
 	for _, i := range cc.IDs {
 		ids = append(ids, wids[i])
